@@ -25,8 +25,8 @@ PATTERNS = {
 }
 
 
-def mk(pattern, c0, c1, nadd):
-    hh = HH.HeavyHitters(1, 2, 2, 0.5)
+def mk(pattern, c0, c1, nadd, phi=0.5):
+    hh = HH.HeavyHitters(1, 2, 2, phi)
     for r, ((bs, ln), c) in enumerate(zip(PATTERNS[pattern], (c0, c1))):
         hh.lhh[r, 0, 0] = bs[0]
         hh.lhh[r, 0, 1] = bs[1]
@@ -171,6 +171,45 @@ def check_two_sketches_independent(c0: int, c1: int, d0: int, thr: int) -> bool:
     return ra1 == ra2 and sorted(ra1) == sorted(_fresh(a, thr)) and all(k in want_b for k, _ in rb)
 
 
+DEFAULT_CFGS = ((0.25, 10), (0.5, 7), (0.3, 11), (0.5, 1))     # (phi, n_added): phi * n_added is 2.5, 3.5, 3.3, 0.5
+
+
+def _default_candidates(pattern, cfg, c0, c1):
+    """what load() does -- generate_candidate_set() with no argument -- followed by query(k, None): the answer is the
+    exact list of stored keys whose count reaches the default threshold uint32(phi * n_added) (at least 1), as a
+    cache-free copy computes it"""
+    phi, nadd = DEFAULT_CFGS[0]
+    for i in range(len(DEFAULT_CFGS)):
+        if cfg == i:
+            phi, nadd = DEFAULT_CFGS[i]
+    hh = mk(pattern, c0, c1, nadd, phi)
+    hh.generate_candidate_set()
+    a = hh.query(10, None)
+    f = mk(pattern, c0, c1, nadd, phi)
+    b = f.query(10, None)
+    thr = int(phi * nadd)
+    want = dict((k, c) for k, c in stored(pattern, c0, c1).items() if c >= (thr if thr > 1 else 1))
+    return sorted(a) == sorted(b) and dict(a) == want and len(a) == len(want)
+
+
+def check_default_candidates_distinct(cfg: int, c0: int, c1: int) -> bool:
+    """
+    pre: 0 <= cfg <= 3 and 0 <= c0 <= 11 and 0 <= c1 <= 11
+    post: _ == True
+    timeout: 600
+    """
+    return _default_candidates("distinct", cfg, c0, c1)
+
+
+def check_default_candidates_empty_key(cfg: int, c0: int, c1: int) -> bool:
+    """
+    pre: 0 <= cfg <= 3 and 0 <= c0 <= 11 and 0 <= c1 <= 11
+    post: _ == True
+    timeout: 600
+    """
+    return _default_candidates("empty_key", cfg, c0, c1)
+
+
 def check_twin_query_nonempty_reachable(c0: int, c1: int, thr: int) -> bool:
     """
     pre: 0 <= c0 < 2**32 and 0 <= c1 < 2**32 and 0 <= thr < 2**32
@@ -201,6 +240,18 @@ def _real_requery(pattern, t1, t2, grow, n1, n2):
 def real_two_sketches_independent(c0, c1, d0, thr):
     ok = check_two_sketches_independent(c0, c1, d0, thr)
     return ok, "query A, query B, query A again: A's answer " + ("unchanged" if ok else "CHANGED / contains another sketch's keys")
+
+
+def _real_default(pattern, cfg, c0, c1):
+    ok = _default_candidates(pattern, cfg, c0, c1)
+    phi, nadd = DEFAULT_CFGS[cfg]
+    hh = mk(pattern, c0, c1, nadd, phi)
+    hh.generate_candidate_set()
+    return ok, f"pattern {pattern} counts ({c0},{c1}) phi={phi} n_added={nadd}: generate_candidate_set() then query(10, None) -> {hh.query(10, None)!r}; stored {stored(pattern, c0, c1)!r}, default threshold uint32({phi * nadd})"
+
+
+def real_default_candidates_distinct(cfg, c0, c1): return _real_default("distinct", cfg, c0, c1)
+def real_default_candidates_empty_key(cfg, c0, c1): return _real_default("empty_key", cfg, c0, c1)
 
 
 def real_requery_distinct(*a): return _real_requery("distinct", *a)
